@@ -15,6 +15,8 @@ var (
 	// ErrInjectedReadEOF is a read FAILURE whose chain contains io.EOF (a transport that
 	// reports "connection closed early: EOF"): only the bare io.EOF value means end of input.
 	ErrInjectedReadEOF = fmt.Errorf("sim: injected read error, connection closed early: %w", io.EOF)
+	// ErrInjectedWriteEOF: a write FAILURE whose chain contains io.EOF (the peer went away)
+	ErrInjectedWriteEOF = fmt.Errorf("sim: injected write error, peer closed the connection: %w", io.EOF)
 )
 
 // All methods of the doubles are //go:norace and use only built-ins on their own state,
